@@ -62,7 +62,7 @@ InitMC ==
   /\ hist = [r \in 1..NReq |-> 0]
   /\ subm = {}
   /\ lst = [state |-> "none", ok |-> TRUE, shutdowns |-> 0]
-  /\ bud = [cmds |-> 0, peer |-> 0, ticks |-> 0, faults |-> 0, abort |-> 0]
+  /\ bud = [cmds |-> 0, peer |-> 0, ticks |-> 0, faults |-> 0, abort |-> 0, conns |-> 0]
 
 Env ==
   \/ \E r \in (1..NReq) \ subm : Submit(ReqShape(r)) /\ subm' = subm \cup {r} /\ UNCHANGED bud
@@ -86,8 +86,8 @@ Env ==
   \/ /\ Mode = "serial" /\ s.attempts <= MaxAttempts /\ bud.cmds < MaxCmds
      /\ PortSet(~s.portOk)
      /\ bud' = [bud EXCEPT !.cmds = @ + 1] /\ UNCHANGED subm
-  \/ /\ Mode = "session" /\ s.attempts < MaxAttempts /\ NewConnection
-     /\ UNCHANGED <<bud, subm>>
+  \/ /\ Mode = "session" /\ bud.conns < MaxAttempts /\ NewConnection
+     /\ bud' = [bud EXCEPT !.conns = @ + 1] /\ UNCHANGED subm
 
 (***************************************************************************)
 (* Listener monitor (C13): which state may follow which                    *)
@@ -192,6 +192,13 @@ DecodeUnobservable ==
   [][ (s.queue # <<>> /\ Head(s.queue).t = "dec" /\ Len(s'.queue) < Len(s.queue) /\ s.enabled /\ s'.pc \notin {"aborted", "done"})
         => /\ out' = NoOut
            /\ s' = [s EXCEPT !.queue = Tail(s.queue)] ]_mvars
+
+\* C07 / C10 (liveness): left alone, the task always comes to rest -- it cannot keep itself busy for ever
+\* (a reconnect loop without a delay, a request bounced between queue and wire, a frame re-parsed endlessly)
+FairSpecMC == SpecMC /\ WF_mvars(TaskStep /\ UNCHANGED <<subm, bud>> /\ Monitor)
+ComesToRest == <>[]Quiescent
+\* ... and when it has come to rest with the channel gone, nothing is owed to any caller
+EventuallySettled == <>[](Quiescent /\ (TaskGone => \A r \in subm : hist[r] = 1 \/ \E d \in s.ready : d.r = r))
 
 View == <<s, out, hist, subm, lst, bud>>
 =============================================================================
